@@ -76,6 +76,8 @@ uint64_t sim_run_index(void);
 
 /* ---- library restart ------------------------------------------------------ */
 void sim_lib_restart(void);		/* done automatically before every run     */
+volatile uint32_t *sim_lib_find_counter(void (*tick)(void));
+uint64_t sim_lib_data_hash(void);
 bool sim_in_lib_text(const void *pc);
 bool sim_in_lib_data(const void *p, size_t len);
 
